@@ -648,11 +648,21 @@ func (s *scope) interpretOps(obj pyObject, ops []OpExpression) pyObject {
 		// Unary expression
 		return s.interpretOp(s.interpretOps(obj, ops[1:]), ops[0])
 	}
-	nobj := s.interpretOps(s.interpretExpression(ops[0].Expr), ops[1:])
-	return s.interpretOp(obj, OpExpression{
+	// Our right operand is the value of the run of operators that bind tighter than we do; whatever follows
+	// that run applies to our result (operators are left-associative), e.g. 10 - 2 * 3 - 1 == (10 - 2 * 3) - 1.
+	end := 2
+	for end < len(ops) && ops[end].Op.Precedence() > ops[0].Op.Precedence() {
+		end++
+	}
+	nobj := s.interpretOps(s.interpretExpression(ops[0].Expr), ops[1:end])
+	obj = s.interpretOp(obj, OpExpression{
 		Op:   ops[0].Op,
 		Expr: &Expression{optimised: &optimisedExpression{Constant: nobj}},
 	})
+	if end == len(ops) {
+		return obj
+	}
+	return s.interpretOps(obj, ops[end:])
 }
 
 func (s *scope) interpretOp(obj pyObject, op OpExpression) pyObject {
